@@ -37,3 +37,24 @@ for _f in sorted(_g.glob(_o.path.join(_o.path.dirname(_o.path.abspath(__file__))
         _v.setdefault("trusted_base", [])
         REGISTRY[_k] = _v
     NOT_APPLICABLE.update(getattr(_m, "NA", {}))
+
+# ---- GoLite: decision functions regenerated from the Go source on every run (harness/translators/golite) and proved
+# equal to the model's predicates for all arguments (coq/Check/GoLite*.v over coq/gen/GoLiteFuns.v).
+_GOLITE = {
+    "C01": ("validate", "Check/GoLiteValidate.v", "execValidate = Types.validate, SignedHeader.ValidateBasic = Types.validate_basic, types.Validate = Types.validate_pair"),
+    "C02": ("validate", "Check/GoLiteValidate.v", "execValidate = Types.validate (the validation the syncer applies to every received block)"),
+    "C03": ("validate", "Check/GoLiteValidate.v", "isUsingExpectedSingleSequencer = Admission.is_expected_sequencer, isValidSignedData = Admission.is_valid_signed_data, SignedHeader.ValidateBasic = Types.validate_basic, Header.ValidateBasic (what go-header calls) = the non-empty proposer address test"),
+    "C04": ("validate", "Check/GoLiteValidate.v", "execValidate = Types.validate"),
+    "C05": ("validate", "Check/GoLiteValidate.v", "execValidate = Types.validate"),
+    "C06": ("submit", "Check/GoLiteSubmit.v", "Manager.exponentialBackoff = Submitter.exp_backoff, pendingBase.isEmpty = (store height =? watermark)"),
+    "C08": ("throttle", "Check/GoLiteThrottle.v", "pendingBase.numPending = Throttle.sub64 (uint64 subtraction with wrap-around), pendingBase.isEmpty"),
+    "C17": ("lazy", "Check/GoLiteLazy.v", "getRemainingSleep = Lazy.remaining"),
+}
+for _k, (_g_, _file, _what) in _GOLITE.items():
+    _e = REGISTRY[_k]
+    _e["translators"] = list(_e.get("translators", [])) + ["tr-golite-" + _g_]
+    _e["trusted_base"] = list(_e.get("trusted_base", [])) + [
+        "golite translator (harness/translators/golite, go/ast, purely syntactic) + the evaluator of the translated fragment, Model/GoLite.v (meaning of field selections, built-in calls and methods over the symbolic vocabulary): "
+        "the Go decision functions are regenerated into coq/gen/GoLiteFuns.v on every run and %s proves for ALL arguments: %s; a construct outside the fragment is emitted as SUnknown/EUnknown, on which the evaluator fails" % (_file, _what)]
+    _e["technique"] = _e.get("technique", "") + "; decision functions translated from the Go source on every run (go/ast -> deep-embedded Gallina AST) and proved equal to the model's predicates"
+    _e["golite"] = {"lemmas_file": _file, "what": _what}
